@@ -72,6 +72,8 @@ def array_forms(u, c, vals, kind, with_unit_only):
         ("FixedArray(n,ObtainQuantity(u,c),values)", lambda: FixedArray(n, ObtainQuantity(u, c), mk(vals))),
         ("FixedArray.CreateWithQuantity(dimension=)", lambda: FixedArray.CreateWithQuantity(ObtainQuantity(u, c), mk(vals), dimension=n)),
         ("FixedArray.CreateWithQuantity", lambda: FixedArray.CreateWithQuantity(ObtainQuantity(u, c), mk(vals))),
+        # the values first, as Array takes them (the arguments are handed on to Array as they come)
+        ("FixedArray(n,values,u,c)", lambda: FixedArray(n, mk(vals), u, c)),
     ]
     if with_unit_only:
         F.append(("Array(values,u)", lambda: Array(mk(vals), u)))
